@@ -26,11 +26,13 @@ structure Cfg where
   errTypeFixed : Bool := false   -- a custom error type as the last RESULT of a stage gives a usable helper
   errRecvFixed : Bool := false   -- `IsError` no longer accepts a type whose `Error` has a pointer receiver, used by value
   typedNilFixed : Bool := false  -- a nil custom error handed to join counts as "no error"
+  localsFixed : Bool := false    -- toerror's locals `success` / `out<i>` no longer collide with parameters of those names
   deriving DecidableEq, Repr, Inhabited
 
 def Cfg.current : Cfg := {}
 def Cfg.fixed : Cfg :=
-  { zeroFixed := true, lhsFixed := true, errTypeFixed := true, errRecvFixed := true, typedNilFixed := true }
+  { zeroFixed := true, lhsFixed := true, errTypeFixed := true, errRecvFixed := true, typedNilFixed := true,
+    localsFixed := true }
 
 /-! ### `derive.IsError`: which types stand where an `error` is expected
 
@@ -360,5 +362,23 @@ def toErrorWf (cfg : Plumb.Cfg) (ps0 : List Param) : Bool :=
   let ps := toErrorParams cfg ps0
   wrapperWellFormed (toErrorTm cfg ps0) &&
     (names ps).all fun n => n != errName && n != successName && !outPrefix.isPrefixOf n
+
+open Plumb in
+/-- the locals `out0 … out<k-1>, success := f(ps…)` share the scope of the parameters. A parameter with
+one of those names is simply assigned to (the call's arguments are evaluated first), which type-checks
+iff its type is the type of that result (`bool` for `success`); and `:=` needs at least one new name. -/
+def toErrorLocalsOk (ps : List Param) (rs : List Nat) (boolTy : Nat) : Bool :=
+  let lhs := (rs.zipIdx.map fun (t, j) => (genName outPrefix j, t)) ++ [(successName, boolTy)]
+  lhs.all (fun (n, t) => match ps.find? (fun p => p.name == n) with
+    | some p => p.ty == t
+    | none => true) &&
+  lhs.any (fun (n, _) => !(names ps).contains n)
+
+open Plumb in
+/-- exact compile prediction for toerror (`toErrorWf` is the sufficient condition used by the theorem) -/
+def toErrorWfExact (cfg : Plumb.Cfg) (localsFixed : Bool) (ps0 : List Param) (rs : List Nat) (boolTy : Nat) : Bool :=
+  let ps := toErrorParams cfg ps0
+  wrapperWellFormed (toErrorTm cfg ps0) && (names ps).all (fun n => n != errName) &&
+    (localsFixed || toErrorLocalsOk ps rs boolTy)
 
 end Goderive.ErrChain
